@@ -59,8 +59,10 @@ type Check struct {
 	known       []Finding
 	knownSeen   map[string]bool
 	Replay      string
-	Deadline    time.Time
-	parts       []map[string]any
+	// SigOf, when set, maps an exploration violation to its known-findings signature.
+	SigOf    func(scenario, param, msg string) string
+	Deadline time.Time
+	parts    []map[string]any
 }
 
 type viol struct {
@@ -504,6 +506,9 @@ func (c *Check) AddExploration(name, param string, st *vsched.Stats, confirm fun
 	seen := map[string]bool{}
 	for _, v := range st.Violations {
 		sig := name + "(" + param + "): " + v.Msg
+		if c.SigOf != nil {
+			sig = c.SigOf(name, param, v.Msg)
+		}
 		if seen[sig] {
 			continue
 		}
